@@ -642,7 +642,7 @@ pub fn configs(tier: Tier) -> Vec<TmCfg> {
             ep.hs_keepalive = if ka_k == 0 { None } else { Some(8) };
             ep.handler_auto = true;
             ep.frame_read_rate = Some((1, 3, 4));
-            v.push(TmCfg { ep, kind: Kind::ReadRate, steady: None, horizon: 16, alphabet: vec![Part(3), Part(12), More(1), More(6), Rest, Pkt], max_events: if thorough { 6 } else { 5 }, combined: false, prefill_busy: 0 });
+            v.push(TmCfg { ep, kind: Kind::ReadRate, steady: None, horizon: 16, alphabet: vec![Part(3), Part(12), More(1), More(3), More(6), Rest, Pkt], max_events: if thorough { 6 } else { 5 }, combined: false, prefill_busy: 0 });
         }
         // ---- frame read rate without an overall limit (max_timeout 0): a frame that keeps above the rate for
         // several periods and then stalls must still be cut one period later (seeded change C20_r5 counted the
